@@ -39,6 +39,9 @@ type Case struct {
 	NoDB   bool    `json:",omitempty"` // the authority runs without a database (db.SimpleDB)
 	CT     string  `json:",omitempty"` // certType of the enriching / authorizing webhooks: "" (ALL) | unset | typed | other
 	Deny   bool    `json:",omitempty"` // every enriching / authorizing webhook answers allow=false whenever asked
+	DenyK  string  `json:",omitempty"` // … only the webhooks of this kind do: "" (both) | enrich | authorize
+	Tok    string  `json:",omitempty"` // shape of the token: "" | nojti (no jti claim)
+	Names  string  `json:",omitempty"` // names of the webhooks: "" (all different) | dup (all the same)
 	Var    string  `json:",omitempty"` // variant of the request: scep renewal | update; acme ids2 | pending | ids2pending
 	Chk    int     // index of the in-process check made to fail by the request's content, -1 = none
 	Faults []Fault `json:",omitempty"`
@@ -70,8 +73,26 @@ func (k *Case) render() string {
 	if ct == "" {
 		ct = "all"
 	}
-	return fmt.Sprintf("run op=%s var=%s ct=%s whdeny=%s e=%d a=%d ch=%d n=%d crl=%s db=%s chk=%s faults=%s sub=%s", k.Op, v, ct, c.B(k.Deny), k.E, k.A, k.CH, k.N, c.B(k.CRL),
+	tokv, names := k.Tok, k.Names
+	if tokv == "" {
+		tokv = "-"
+	}
+	if names == "" {
+		names = "-"
+	}
+	return fmt.Sprintf("run op=%s var=%s tok=%s names=%s ct=%s whdeny=%s e=%d a=%d ch=%d n=%d crl=%s db=%s chk=%s faults=%s sub=%s", k.Op, v, tokv, names, ct, denyField(k), k.E, k.A, k.CH, k.N, c.B(k.CRL),
 		c.B(!k.NoDB), chk, c.List(fs), c.List(subs)) + cs
+}
+
+// denyField renders the standing denial: 0 | 1 (both kinds) | enrich | authorize.
+func denyField(k *Case) string {
+	if !k.Deny {
+		return "0"
+	}
+	if k.DenyK != "" {
+		return k.DenyK
+	}
+	return "1"
 }
 
 func hasToken(op string) bool {
@@ -94,6 +115,9 @@ func hasToken(op string) bool {
 // (certType ALL, unset or the issued type) and answer allow=false whenever asked.
 func standingDenial(k *Case) bool {
 	if !k.Deny || k.E+k.A == 0 || k.Var == "badhook" {
+		return false
+	}
+	if (k.DenyK == "enrich" && k.E == 0) || (k.DenyK == "authorize" && k.A == 0) {
 		return false
 	}
 	// an unknown spelling of kind or certType makes the provisioner refuse everything (or, for a
@@ -209,8 +233,12 @@ func runCase(k *Case) (res result) {
 		e.rec.stop()
 		plain := cls(e.do(q))
 		restart := "fail"
-		if e.real { // the CA built from a configuration on disk is not restarted here
-			restart = "-"
+		if e.real { // the CA built from a configuration on disk is reloaded (CA.Reload, what SIGHUP does)
+			if err := e.reload(); err == nil {
+				restart = cls(e.do(q))
+			} else if os.Getenv("VERIF_DEBUG") != "" {
+				fmt.Fprintln(os.Stderr, "reload:", err)
+			}
 		} else if ca2, err := e.ca.Restart(); err == nil {
 			e.ca = ca2
 			restart = cls(e.do(q))
@@ -229,6 +257,16 @@ func runCase(k *Case) (res result) {
 	fc := failClosed(cl, r.got(), ev, ids, len(hs), nrec, rev, d("used_ott"), reuse, k.NoDB)
 	if cl == "ok" && standingDenial(k) { // a webhook that applies to the request says no, and the request succeeded
 		fc = "BROKEN"
+	}
+	// the token record is the first external call of a token operation (token_recorded_first): a
+	// request that got as far as any other call without it has a token nobody recorded
+	if hasToken(k.Op) && !k.NoDB && len(ev) > 0 && stepOf(ev[0]) != "useToken" {
+		fc = "BROKEN"
+	}
+	if e.real { // CA.Reload hands the open database (also the in-memory one) over: what was refused before is refused after
+		if f := strings.Split(reuse, "/"); len(f) == 3 && f[1] == "err" && f[2] == "ok" {
+			fc = "BROKEN"
+		}
 	}
 	if e.linked != nil && cl == "ok" { // a linked CA is configured: the records must have gone through it
 		if int(e.linked.stores.Load()) < len(hs) || (r.got() == "ack" && e.linked.revokes.Load() == 0) {
@@ -283,13 +321,16 @@ type scenario struct {
 	NoDB     bool
 	Var      string
 	CT       string
+	Tok      string
+	Names    string
 	Deny     bool
+	DenyK    string
 	Chks     []int // indices of the in-process decisions the request content can make fail
 	Thorough bool  // only in the thorough tier
 }
 
 func (s scenario) newCase(chk int, fs ...Fault) *Case {
-	return &Case{Op: s.Op, E: s.E, A: s.A, CH: s.CH, N: s.N, CRL: s.CRL, NoDB: s.NoDB, Var: s.Var, CT: s.CT, Deny: s.Deny, Chk: chk, Faults: fs}
+	return &Case{Op: s.Op, E: s.E, A: s.A, CH: s.CH, N: s.N, CRL: s.CRL, NoDB: s.NoDB, Var: s.Var, CT: s.CT, Tok: s.Tok, Names: s.Names, Deny: s.Deny, DenyK: s.DenyK, Chk: chk, Faults: fs}
 }
 
 var scenarios = []scenario{
@@ -345,6 +386,17 @@ var scenarios = []scenario{
 	{Op: "sign", Var: "real", Chks: []int{0, 2}}, {Op: "renew", Var: "real"}, {Op: "rekey", Var: "real"}, {Op: "revoke", Var: "real"},
 	{Op: "revokemtls", Var: "real"}, {Op: "sshsign", Var: "real"}, {Op: "sshsignfull", Var: "real"}, {Op: "sshrenew", Var: "real"},
 	{Op: "sshrevoke", Var: "real"}, {Op: "revoke", Var: "real", CRL: true},
+	// … and without a "db" section: the used tokens live in memory and must survive CA.Reload
+	{Op: "sign", Var: "real", NoDB: true, Chks: []int{2}}, {Op: "revoke", Var: "real", NoDB: true}, {Op: "sshsign", Var: "real", NoDB: true},
+	// tokens without a jti claim (recorded under a hash of the token): every token provisioner type driven here
+	{Op: "sign", Tok: "nojti", E: 1, A: 1, Chks: []int{2}}, {Op: "signx5c", Tok: "nojti", A: 1, Chks: []int{1}}, {Op: "revoke", Tok: "nojti"},
+	{Op: "sshsign", Tok: "nojti", A: 1}, {Op: "sshrenew", Tok: "nojti"}, {Op: "sshrevoke", Tok: "nojti"}, {Op: "sign", Tok: "nojti", Var: "real", NoDB: true},
+	{Op: "sign", Tok: "nojti", Deny: true, A: 1}, {Op: "signx5c", Tok: "nojti", Deny: true, E: 1},
+	// webhooks that share a name (one back-end for the enriching and the authorizing call)
+	{Op: "sign", Names: "dup", E: 1, A: 1}, {Op: "sign", Names: "dup", Deny: true, DenyK: "authorize", E: 1, A: 1},
+	{Op: "sign", Deny: true, DenyK: "authorize", E: 2, A: 1}, {Op: "sshsign", Deny: true, DenyK: "authorize", E: 1, A: 1},
+	{Op: "sign", Deny: true, DenyK: "enrich", E: 1, A: 1}, {Op: "acme", Names: "dup", Deny: true, DenyK: "authorize", E: 1, A: 1}, {Op: "sshsign", Names: "dup", E: 1, A: 2},
+	{Op: "acme", Names: "dup", E: 1, A: 1}, {Op: "scep", Names: "dup", E: 1, A: 1, CH: 1}, {Op: "sign", Names: "dup", Var: "adminreboot", E: 1, A: 1},
 	// the legacy route names
 	{Op: "renew", Var: "legacy"},
 	// a linked CA as adminDB: it keeps the records (store / revoke / revocation checks / certificate data)
@@ -368,7 +420,7 @@ var scenarios = []scenario{
 }
 
 var srcFns = []string{"authorizeToken", "authorizeSign", "signX509", "authorizeRenew", "renewContext", "Revoke",
-	"signSSH", "SignSSHAddUser", "renewSSH", "rekeySSH", "Finalize", "FinalizeOrder", "PKIOperation", "SignCSR", "Validate", "DoWithContext", "@signers", "@callers", "@scepTypes", "@storers", "@adminStore", "@hookControllers", "@routes"}
+	"signSSH", "SignSSHAddUser", "renewSSH", "rekeySSH", "Finalize", "FinalizeOrder", "PKIOperation", "SignCSR", "Validate", "DoWithContext", "@signers", "@callers", "@scepTypes", "@storers", "@adminStore", "@hookControllers", "@routes", "@reloadOptions", "@tokenIDs"}
 
 // sink appends case lines to the output file, flushed per line; the first `skip` lines are
 // already there (written by an earlier worker process that died) and are not written again.
@@ -576,7 +628,7 @@ func main() {
 		}
 		// configuration variants of an operation already enumerated in full: in the quick tier single
 		// faults only, one realisation per outcome kind (rotating with position and seed)
-		variant := s.CT != "" || s.Deny || s.Var != "" // a configuration variant of an operation enumerated in full
+		variant := s.CT != "" || s.Deny || s.Var != "" || s.Tok != "" || s.Names != "" // a configuration variant of an operation enumerated in full
 		light := !*pairs && variant
 		// every position, every kind (every realisation)
 		for p, ev := range tr {
